@@ -78,9 +78,10 @@ Call(e) ==
        /\ isdel \/ retry[e.k].ver = e.ver
        /\ RetryOp(rs, e.k, ~e.fail)
 
-\* at quiescence the reconciler is between rounds with nothing to do, and table and target are the model's
+\* at quiescence (every goroutine blocked) the reconciler is between rounds -- possibly with work pending, waiting for
+\* its rate limiter: the refresh loop may just have marked an object -- and table and target are the model's
 Quiesce(e) ==
-    /\ phase = "idle" /\ ~Work /\ ~RetryDue
+    /\ phase = "idle"
     /\ RowsOf(obj) = RowsIn(e.table)
     /\ { << e.target[i][1], e.target[i][2] >> : i \in 1..Len(e.target) } = { << k, target[k] >> : k \in DOMAIN target }
     /\ UNCHANGED vars
